@@ -929,6 +929,14 @@ func newRun(sc *Scenario) *Run {
 	return r
 }
 
+// funcSource adapts a function to dials.Source, as http.HandlerFunc does for
+// handlers: a perfectly good Source whose dynamic type is not hashable.
+type funcSource func(context.Context, *dials.Type) (reflect.Value, error)
+
+func (f funcSource) Value(ctx context.Context, t *dials.Type) (reflect.Value, error) {
+	return f(ctx, t)
+}
+
 func (r *Run) buildSources() []dials.Source {
 	var out []dials.Source
 	for i := range r.sc.Sources {
@@ -937,6 +945,9 @@ func (r *Run) buildSources() []dials.Source {
 		switch st.spec.Kind {
 		case "static":
 			st.src = &simStatic{st: st, r: r}
+			if st.spec.FuncTyped {
+				st.src = funcSource(st.src.Value)
+			}
 		case "watch":
 			st.src = &simWatcher{simStatic{st: st, r: r}}
 		case "blank":
